@@ -5,6 +5,7 @@ import (
 	"context"
 	"encoding/json"
 	"fmt"
+	"io"
 	"net/http"
 	"net/url"
 	"runtime/debug"
@@ -17,12 +18,41 @@ import (
 
 // Request is one call into the library.
 type Request struct {
-	Kind   string            `json:"kind"` // PostInbox PostOutbox GetInbox GetOutbox Handler Send
-	URL    string            `json:"url"`  // box IRI (or object IRI for Handler)
-	Method string            `json:"method,omitempty"`
-	Header map[string]string `json:"header,omitempty"`
-	Body   interface{}       `json:"body,omitempty"`     // JSON value, or
-	RawBody string           `json:"raw_body,omitempty"` // raw bytes
+	Kind    string            `json:"kind"` // PostInbox PostOutbox GetInbox GetOutbox Handler Send
+	URL     string            `json:"url"`  // box IRI (or object IRI for Handler)
+	Method  string            `json:"method,omitempty"`
+	Header  map[string]string `json:"header,omitempty"`
+	Body    interface{}       `json:"body,omitempty"`     // JSON value, or
+	RawBody string            `json:"raw_body,omitempty"` // raw bytes
+	// BodyFailAfter, when non-nil, makes the request body reader fail after
+	// that many bytes (a client that disconnects mid-upload).
+	BodyFailAfter *int `json:"body_fail_after,omitempty"`
+	// WriteFail makes ResponseWriter.Write fail: "error" returns an error,
+	// "short" reports one byte fewer than given.
+	WriteFail string `json:"write_fail,omitempty"`
+}
+
+// failingReader yields the first n bytes of b, then an error.
+type failingReader struct {
+	b []byte
+	n int
+}
+
+func (f *failingReader) Read(p []byte) (int, error) {
+	if f.n <= 0 || len(f.b) == 0 {
+		return 0, fmt.Errorf("verif-sim: request body read failed (client went away)")
+	}
+	k := len(p)
+	if k > f.n {
+		k = f.n
+	}
+	if k > len(f.b) {
+		k = len(f.b)
+	}
+	copy(p, f.b[:k])
+	f.b = f.b[k:]
+	f.n -= k
+	return k, nil
 }
 
 // Scenario is a complete, replayable description of a world and requests.
@@ -54,6 +84,7 @@ type Response struct {
 	Header      map[string]string `json:"header,omitempty"`
 	Body        string            `json:"body,omitempty"`
 	Writes      int               `json:"writes,omitempty"`
+	WriteFailed bool              `json:"write_failed,omitempty"`
 	SendID      string            `json:"send_id,omitempty"`
 	FirstEvent  int               `json:"first_event"`
 	LastEvent   int               `json:"last_event"`
@@ -156,6 +187,7 @@ func (w *World) Do(actor pub.FederatingActor, req Request, reqID string) (resp R
 		resp.AppStatuses = rw.AppStatuses
 		resp.Body = string(rw.Body)
 		resp.Writes = rw.Writes
+		resp.WriteFailed = rw.WriteFailed
 		resp.Header = map[string]string{}
 		src := rw.HeaderAtWH
 		if src == nil {
@@ -201,7 +233,12 @@ func (w *World) Do(actor pub.FederatingActor, req Request, reqID string) (resp R
 			method = "GET"
 		}
 	}
-	hr, err := http.NewRequest(method, req.URL, bytes.NewReader(body))
+	var rd io.Reader = bytes.NewReader(body)
+	if req.BodyFailAfter != nil {
+		rd = &failingReader{b: body, n: *req.BodyFailAfter}
+	}
+	rw.WriteFail = req.WriteFail
+	hr, err := http.NewRequest(method, req.URL, rd)
 	if err != nil {
 		finish(false, err)
 		resp.Err = "HARNESS: " + resp.Err
